@@ -9,7 +9,7 @@ ID = "C05"
 ALT_BUILD = True          # a quarter of the workers run the gcc -O0 build (core.py)
 LEVEL = "exploration"
 BUDGET = {"quick": 1200, "thorough": 240000}
-RULE = ("case = 1-5 containers (Array, List, Table, Tree with Probe elements/keys/values - a type with constructor, "
+RULE = ("case = 1-5 containers (Array, List, Table, Tree with Probe elements/keys/values - a 28-byte type (no multiple of the word size; its last bytes are a function of its token, so a partially moved element is seen as torn) with constructor, "
         "assignment, destructor and owned heap memory - and Array / List / Table / Tree of Box owning collector-managed Probes) "
         "driven by interleaved op lists incl. copy, assign between containers of the same family (Array<->List, Table<->Tree; a "
         "map is often given a twin of the same types and the other or the same kind, so that both sides of a cross-assign "
